@@ -1754,7 +1754,7 @@ def zeros(rng):
                         if not Gen.json_ok(lit):
                             lit = "0"
                         v = dn(lit)
-                    if rng.random() < 0.55:
+                    if rng.random() < 0.78:
                         continue
                     fa = F("a", wrap(P(kind)), copy.deepcopy(o))
                     fb = F("b", P("int"), O(opt=True))
@@ -1770,6 +1770,74 @@ def zeros(rng):
                     pairs = [("a", copy.deepcopy(v))] + ([("b", dn("1"))] if b_on else [])
                     cases.append(finish({"mode": mode, "type": St(F("a", copy.deepcopy(t), copy.deepcopy(o)), F("b", i, O(opt=True))),
                                          "doc": dobj(pairs), "intent": "zero-value"}))
+    return cases
+
+
+DEFAULT_MEMO_FIXED = [False]      # set by regen(): core/mapping keys its memo of slice defaults by (reading, text)
+
+
+def slice_defaults(rng):
+    """default= on slice fields: cut into segments for string elements, read as a JSON array
+    otherwise, then filled like a supplied array; the same default text on fields of both kinds
+    in one process, in both orders"""
+    cases = []
+    elems = [P("int"), P("string"), P("float64"), P("bool"), Ptr(P("int")), Ptr(P("string")), P("int8"), P("uint"), Ptr(Ptr(P("bool")))]
+    texts = ["[1,2,3]", "[]", "[1, 2]", "[1.5,2]", "[a,b]", "a", "[\"a\",\"b\"]", "[true,false]", "[null]", "[1,null,3]", "5", "[x]",
+             "[300]", "[-1]", "[\"1\",\"2\"]", "[1,\"2\"]", "(a,b)", "[ a , b ]", "[1e2]", "[01]", "[1,]", "[,]", "[a,,b]", "[a\\,b,c]",
+             "true", "null", "\"s\"", "[1] x", "[1.0,2.50]", "[-0]", "[+1]", "[ ]", "[[]]"]
+    modes = ["json", "form", "key", "header", "path", "httpx-json", "httpx-form"]
+    n = 0
+    uniq = [0]
+
+    def unique(d, string_elems):
+        """no two cases of a run share a default text (what a process-wide memo keyed by the text
+        remembers can only come from the case itself)"""
+        uniq[0] += 1
+        if d[0] in "[(":
+            pad = "".join(" \t"[int(b)] for b in bin(uniq[0])[2:])      # white space spelling the number
+            return d[0] + pad + d[1:]
+        if d[-1].isalnum() and d not in ("true", "null"):
+            return d + str(uniq[0])
+        return None if string_elems else d       # read one way only
+
+    for e in elems:
+        for d in texts:
+            n += 1
+            mode = modes[n % len(modes)]
+            d = unique(d, deref(e)["k"] == "string")
+            if d is None:
+                continue
+            for o in ((O(**{"def": d}), O(opt=True, **{"def": d})) if n % 3 == 0 else (O(**{"def": d}),)):
+                fa = F("a", Sl(copy.deepcopy(e)), o)
+                if "\\" in d:
+                    fa["style"] = "plain"       # the tag text escapes nothing itself: written as is
+                    fa.pop("style")
+                fb = F("b", P("int"), O(opt=True))
+                docs = [dobj([])]
+                if n % 3 == 0:
+                    docs.append(dobj([("b", scalar_for(mode, "1"))]))
+                if n % 4 == 0 and mode not in ("path", "httpx-path"):
+                    v = {"a": [ds("7")]} if mode in STRINGY else {"a": [dn("7")] if deref(e)["k"] != "string" else [ds("7")]}
+                    docs.append(dobj([("a", v)]))
+                for doc in docs:
+                    cases.append(finish({"mode": mode, "type": St(copy.deepcopy(fa), copy.deepcopy(fb)), "doc": doc, "intent": "slice-default"}))
+    if DEFAULT_MEMO_FIXED[0]:
+        # one default text, two readings, one process
+        pads = [0]
+
+        def salted(tmpl):
+            pads[0] += 1
+            return tmpl.replace("~", "".join("\t "[int(b)] for b in bin(pads[0])[2:]))
+
+        for tmpl in ("[true,~false]", "[\"q\",~\"r\"]", "[1,~2]", "[null~]", "[1.50~]", "[a,~b]", "[\"1\",~\"2\"]"):
+            for first, second in ((P("bool"), P("string")), (P("int"), P("string")), (P("string"), P("int")), (P("string"), P("bool")),
+                                  (Ptr(P("string")), P("float64")), (P("float64"), Ptr(P("string")))):
+                d = salted(tmpl)
+                steps = []
+                for e in (first, second, first):
+                    mode = rng.choice(["json", "key", "form", "httpx-json"])
+                    steps.append({"mode": mode, "type": St(F("a", Sl(copy.deepcopy(e)), O(**{"def": d}))), "doc": dobj([])})
+                cases.append(finish({"mode": "seq", "procs1": rng.random() < 0.5, "steps": steps, "intent": "default-memo"}))
     return cases
 
 
@@ -1941,6 +2009,7 @@ class C08(Property):
         the front-end limits and the order of the passes that the generator mirrors follow the source"""
         global MAX_FORM_VALUES, MAX_BODY, PARSE_ORDER
         c, notes = c08consts.regen()
+        DEFAULT_MEMO_FIXED[0] = bool(c["default_memo_per_reading"])
         MAX_FORM_VALUES = c["maxFormParamCount"]
         MAX_BODY = c["maxBodyLen"]
         order = [{"ParsePath": "path", "ParseForm": "form", "ParseHeaders": "header", "ParseJsonBody": "json"}[x]
@@ -2023,6 +2092,7 @@ class C08(Property):
             cases += dotted(rng)
             cases += tagsyntax(rng)
             cases += zeros(rng)
+            cases += slice_defaults(rng)
         cases += boundaries(rng, 500 if not big else 6000)
         cases += frontends(rng, 150 if not big else 1500)
         cases += broken_texts()
